@@ -7,9 +7,10 @@ from . import common as C
 from . import exprharness as X
 from .chrun import Cond, run_conditions, to_obligations, concrete_reach
 
-HEAD = '''# generated harness module (E1, constant expressions) -- no message-formatting stub here: str(int) is semantic
+HEAD = '''# generated harness module (E1, constant expressions) -- str(int) is semantic here and kept exact by engine patch 8;
+# only the str.format / percent / format() calls of diagnostics are stubbed (error text is not the subject)
 from vf import pyharness as H, exprharness as X
-H.setup(formatting_stub=False, int_str=True)
+H.setup(formatting_stub=True, int_str=True)
 X.parser()
 TABLE = %(table)r
 
